@@ -308,7 +308,7 @@ def check_decoded_records(h, loop, res, buf, listattr, rec_size, stride, count, 
         h.oblige(tag + "decoded list is exactly one specification record per announced repeat", len(g) == count)
         h.oblige(tag + "remaining = payload[min(count * stride, len):]", bytes(rem) == bytes(buf[count * stride:]))
         for k, rec in enumerate(g):
-            h.oblige(f"{tag}-loop/the record is read from inside the buffer", k * stride + rec_size <= len(buf))
+            h.oblige(f"{tag.rstrip(': ')}-loop/the record is read from inside the buffer", k * stride + rec_size <= len(buf))
             check_record(rec, list(buf[k * stride:k * stride + rec_size]), k)
 
 
@@ -668,6 +668,7 @@ def x23_normal_data(h):
 #   Byte4 / Byte5 the same for the off-timer; Byte6-9 zero padding.  Repeat length 9.
 TIMER_ORACLE = ["oracle is repo-derived (module docstring + test vectors of tests/at5/comms): the vendor document v1.2 "
                 "does not describe sub-messages 0x32 / 0x33"]
+TIMER_DECODE_ASSUMPTIONS = TIMER_ORACLE + ["normal data length 0 (the layout the repo documents has no normal data)"]
 
 
 def gen_timer_state(h, name):
@@ -751,7 +752,7 @@ def check_timer_record(h, rec, b, tag=""):
         h.oblige(tag + nm + " minute = bit6-1 of the next byte", h.attr(st, "minute") == lo % 64)
 
 
-@oset("at5.xC033.decode-reading", ["C05", "C17"], [X33 + ":AcTimerStatusDecoder.decode"], assumptions=TIMER_ORACLE)
+@oset("at5.xC033.decode-reading", ["C05", "C17"], [X33 + ":AcTimerStatusDecoder.decode"], assumptions=TIMER_DECODE_ASSUMPTIONS)
 def x33_decode(h):
     """Unbounded in the record count, every announced stride (symbolic stride loop contract).  The
     decoder reads 5 bytes per record; a stride below the 9-byte layout is rejected."""
@@ -760,7 +761,7 @@ def x33_decode(h):
 
 
 @oset("at5.xC032.decode-reading", ["C05", "C17"], [X32 + ":AcTimerControlDecoder.decode", X33 + ":AcTimerStatusDecoder.decode"],
-      assumptions=TIMER_ORACLE)
+      assumptions=TIMER_DECODE_ASSUMPTIONS)
 def x32_decode(h):
     """Same layout through the control decoder; an empty sub-message (which the status decoder reads
     as a request) is not a control message and must be rejected."""
@@ -778,18 +779,24 @@ def x32_decode(h):
 #
 # The wrapper is verified *parametrically*: the sub-encoder / sub-decoder is a stub specified by a
 # contract (h.stub), for an arbitrary registered id and an arbitrary sub type.
-# The product count * length is kept linear for the solver: one factor comes from a complete case
-# split over constants, the other is symbolic over its whole 16-bit range, in both orders
-# ("lengths" covers the record sizes in use 0, 4, 8, 9, 10 and the extremes with an arbitrary count;
-# "counts" covers counts 0, 1, 2, 16 and 65535 with an arbitrary stride).
+# The product  repeat count * repeat length  of two symbolic 16-bit numbers is non-linear.  Three
+# shapes are explored: "both symbolic" (the general case: both factors range over 0..65535; z3
+# discharges these VCs because the product only ever occurs as one and the same term on both sides
+# of an equation or as one summand of a slice bound - seeded mutants of the wrapper still produce
+# counter-models in this shape), and, as a net that stays inside linear arithmetic whatever the
+# solver does with products, a complete case split of one factor with the other one symbolic:
+# lengths 0, 1, 4, 8, 9, 10, 65535 x any count and counts 0, 1, 2, 16, 65535 x any length.
 _W_LENGTHS = [0, 1, 4, 8, 9, 10, 65535]
 _W_COUNTS = [0, 1, 2, 16, 65535]
-W_BOUND = "repeat length in {0,1,4,8,9,10,65535} x any count, or repeat count in {0,1,2,16,65535} x any length (product kept linear)"
 
 
 def gen_lengths(h):
     nr = h.int("non_repeat_length", 0, 65535)
-    if h.choice("product_shape", ["constant length", "constant count"]) == "constant length":
+    shape = h.choice("product_shape", ["constant length", "constant count", "both symbolic"])
+    if shape == "both symbolic":
+        rs = h.int("repeat_length", 0, 65535)
+        rc = h.int("repeat_count", 0, 65535)
+    elif shape == "constant length":
         rs = h.choice("repeat_length", _W_LENGTHS)
         rc = h.int("repeat_count", 0, 65535)
     else:
@@ -800,6 +807,9 @@ def gen_lengths(h):
 
 def exact_bytes(h, name, n):
     """A symbolic buffer of exactly n bytes (n symbolic)."""
+    if not h.symbolic and n > 4096:
+        h.assume(False, "native replay materialises at most 4096 bytes of sub data")
+        n = 4096
     b = h.abytes(name, ln=n)
     if not h.symbolic:
         b = (bytes(b) + bytes(n))[:n]
@@ -857,7 +867,7 @@ def sub_header_bytes_ok(h, hb, sid, nr, rs, rc):
 
 
 @oset("at5.xC0.encoder-parametric", ["C03", "C04"], [C0 + ":ControlStatusEncoder.size", C0 + ":ControlStatusEncoder.encode",
-                                                     C0 + ":ControlStatusEncoder._sub_message_encoder"], bounded=W_BOUND)
+                                                     C0 + ":ControlStatusEncoder._sub_message_encoder"])
 def c0_encoder(h):
     """ControlStatusEncoder over an arbitrary sub-encoder that satisfies the sub-encoder contract,
     registered under an arbitrary id, for a sub-message with an arbitrary id."""
@@ -892,7 +902,7 @@ def c0_encoder(h):
 
 
 @oset("at5.xC0.decoder-parametric", ["C05", "C17"], [C0 + ":ControlStatusDecoder.decode", C0 + ":ControlStatusDecoder._sub_message_decoder",
-                                                     C0 + ":UnsupportedControlStatusDecoder.decode"], bounded=W_BOUND)
+                                                     C0 + ":UnsupportedControlStatusDecoder.decode"])
 def c0_decoder(h):
     """ControlStatusDecoder on an arbitrary buffer: dispatch on the sub type byte; a registered sub
     type goes to its decoder with exactly the bytes behind the sub-header and the parsed sub-header;
@@ -942,7 +952,7 @@ def c0_decoder(h):
         h.cover("unregistered sub type")
 
 
-@oset("at5.xC0.unsupported-decoder", ["C17"], [C0 + ":UnsupportedControlStatusDecoder.decode"], bounded=W_BOUND)
+@oset("at5.xC0.unsupported-decoder", ["C17"], [C0 + ":UnsupportedControlStatusDecoder.decode"])
 def c0_unsupported(h):
     """UnsupportedControlStatusDecoder on its own: never raises, carries nr + rc * rs bytes unchanged."""
     buf = h.abytes("payload")
@@ -961,7 +971,7 @@ def c0_unsupported(h):
     h.oblige("remaining = payload[nr + rc * rs:]", buf_eq(h, h.attr(r.value, "remaining"), h.slice(buf, total)))
 
 
-@oset("at5.xC0.sub-header", ["C03"], [C0 + ":ControlStatusSubHeader.message_length", C0 + ":ControlStatusSubHeader.message_id"], bounded=W_BOUND)
+@oset("at5.xC0.sub-header", ["C03"], [C0 + ":ControlStatusSubHeader.message_length", C0 + ":ControlStatusSubHeader.message_id"])
 def c0_sub_header(h):
     sid = h.int("sub_message_id", 0, 255)
     nr, rs, rc = gen_lengths(h)
@@ -973,8 +983,7 @@ def c0_sub_header(h):
     h.oblige("message_id = sub message type", And(mi.ok, h.eq(mi.value, sid) if mi.ok else False))
 
 
-@oset("at5.xC0.roundtrip-parametric", ["C03"], [C0 + ":ControlStatusEncoder.size", C0 + ":ControlStatusEncoder.encode", C0 + ":ControlStatusDecoder.decode"],
-      bounded=W_BOUND)
+@oset("at5.xC0.roundtrip-parametric", ["C03"], [C0 + ":ControlStatusEncoder.size", C0 + ":ControlStatusEncoder.encode", C0 + ":ControlStatusDecoder.decode"])
 def c0_roundtrip(h):
     """decode(encode(m)) through the wrapper for any sub-codec pair satisfying the contract: the
     sub-decoder receives exactly the sub-encoder's bytes and an equal sub-header; what it returns is
